@@ -37,6 +37,29 @@ def stanzaLine (cfg : Cfg) (k : Kind) (ts : List Tok) : String :=
 
 def handle (args : List String) : Option String :=
   match args with
+  | ["reuse", _ns, _from, holder, ops] => do
+    -- handle 0 writes <a/> and is closed; then operations on the closed handle
+    let el (n : String) : Tok := .start ⟨"urn:reuse", n⟩ []
+    let en (n : String) : Tok := .stop ⟨"urn:reuse", n⟩
+    let s0 := (Handles.run true (Handles.acquire Handles.init 0) [(0, .enc (el "a")), (0, .enc (en "a")), (0, .close)]).1
+    let s1 := if holder == "none" then s0
+      else if holder == "idle" then Handles.acquire s0 1
+      else (Handles.run true (Handles.acquire s0 1) [(1, .enc (el "b"))]).1
+    let parse (o : String) : Option (List Handles.HOp) :=
+      if o == "E" then some [.enc (el "x"), .enc (en "x")] else if o == "F" then some [.flush]
+      else if o == "C" then some [.close] else none
+    let progs ← mapM? parse (splitList ops)
+    let (s2, res, locks) := progs.foldl (fun (acc : Handles.Sess × List String × List String) p =>
+      let r := Handles.run true acc.1 (p.map fun o => (0, o))
+      let cls := if r.2.contains .eof then "eof" else "nil"
+      (r.1, acc.2.1 ++ [cls], acc.2.2 ++ [showBool r.1.holder.isSome])) (s1, [], [])
+    let fin : Handles.Sess :=
+      if holder == "none" then (Handles.run true (Handles.acquire s2 2) [(2, .enc (el "b")), (2, .enc (en "b")), (2, .close)]).1
+      else if holder == "idle" then (Handles.run true s2 [(1, .enc (el "b")), (1, .enc (en "b")), (1, .close)]).1
+      else (Handles.run true s2 [(1, .enc (en "b")), (1, .close)]).1
+    let names := fin.wire.filterMap fun t => match t with
+      | .start n _ => some ("+" ++ n.loc) | .stop n => some ("-" ++ n.loc) | _ => none
+    pure s!"{joinList res} {joinList locks} {joinList names}"
   | ["tx", entry, ns, from_, start, toks, _form] => do
     let fr ← if from_ == "-" then some "" else hexDecodeStr from_
     let ts ← decToks toks
